@@ -268,6 +268,10 @@ func (P *Prog) funcWrites(env *TypeEnv, f *ssa.Function) map[string]string {
 		return m
 	}
 	out := map[string]string{}
+	if P.writesBusy == nil {
+		P.writesBusy = map[*ssa.Function]bool{}
+	}
+	P.writesBusy[f] = true
 	seen := map[*ssa.Function]bool{f: true}
 	work := []*ssa.Function{f}
 	for len(work) > 0 {
@@ -283,12 +287,30 @@ func (P *Prog) funcWrites(env *TypeEnv, f *ssa.Function) map[string]string {
 			_ = af
 		}
 		for _, c := range callees {
-			if !seen[c] {
-				seen[c] = true
-				work = append(work, c)
+			if seen[c] {
+				continue
 			}
+			seen[c] = true
+			// a callee whose contract declares components unchanged as a whole (proved in its own verification,
+			// obligation frame.unchanged.*) does not contribute them to its callers' write sets
+			if ct := P.ContractFor(c); ct != nil && len(ct.Extra["unchanged"]) > 0 && !P.writesBusy[c] {
+				skip := map[string]bool{}
+				for _, x := range ct.Extra["unchanged"] {
+					for _, a := range sxAtoms(x) {
+						skip[a] = true
+					}
+				}
+				for k, v := range P.funcWrites(env, c) {
+					if !skip[k] {
+						out[k] = v
+					}
+				}
+				continue
+			}
+			work = append(work, c)
 		}
 	}
+	delete(P.writesBusy, f)
 	P.writesMemo[f] = out
 	for k, v := range out {
 		if k != "*" && k != "ghost*" {
